@@ -11,19 +11,19 @@ CHECKS = {
          "Every result of every call of several thousand seeded histories (hostile keys, boundary content lengths, irregular readers/writers) equals the reference model; held on what was run, not a proof.", "trusted: reference model refmodel, the OS file system", "3/C01"),
  "C02": ("exploration", "differential runtime monitoring: sequentially interleaved multi-transaction histories; every open transaction and the autocommit caller probe every key after every step; oracle = reference model; steps that open a second database in the process and writes whose metadata record fails (fault function) in the middle of histories",
          "All reads of all actors at all four levels after every step of seeded histories (up to 5 open transactions, collector passes in between) equal the model.", "trusted: reference model (RU accepts both datings of a committed value)", "3/C02"),
- "C03": ("exploration", "differential runtime monitoring: commit-focused histories, Commit/Rollback classes and all-key probes vs reference model; plus fault injection into the metadata writes of a Commit (every position, all levels) judged by autocommit / ReadUncommitted / RepeatableRead readers open across it and after reopen; Commit||Commit and Commit||Rollback on one transaction released by a spin barrier; hundreds of failed commits in a row; Commit with a context cancelled on the way (at its k-th consultation / by timer); second databases opened and failing metadata writes in the middle of histories; ReadUncommitted reader after cancelled commits",
+ "C03": ("exploration", "differential runtime monitoring: commit-focused histories, Commit/Rollback classes and all-key probes vs reference model; plus fault injection into the metadata writes of a Commit (every position, all levels) judged by autocommit / ReadUncommitted / RepeatableRead readers open across it and after reopen; Commit||Commit and Commit||Rollback on one transaction released by a spin barrier; hundreds of failed commits in a row; Commit with a context cancelled on the way (at its k-th consultation / by timer); second databases opened and failing metadata writes in the middle of histories; ReadUncommitted reader after cancelled commits; commits of 1001-3100 keys with a failing metadata write at chosen positions",
          "Both directions of 'fails iff write-write conflict' and all-or-nothing visibility are compared with the model on every commit/rollback of seeded histories.", "trusted: reference model", "3/C03"),
  "C05": ("exploration", "differential runtime monitoring across Close/Open in four process configurations (same process, decoy database first, two interleaved databases, process per segment), histories with more records than one iterator batch, long / non-ASCII / non-UTF-8 keys; databases of 2049-9000 records with keys of 1-2 MiB and commits of more than a thousand keys; simultaneous first writes into empty databases; hash-colliding keys; the server application restarted under a live gRPC client and its handles; reopen with a context that is already done; empty values; writes whose metadata record fails in the middle of histories (must leave no trace, before and after a reopen)",
          "State after every reopen and after overwrites following a reopen equals the model in all four process configurations.", "trusted: reference model", "3/C05"),
  "C09": ("exploration", "differential runtime monitoring: the same history re-run with the collector inserted at every position (probing order varied per variant); all probes must equal the collector-free model; role scheduled: the database's own scheduled collector job (1-250 ms) runs during writes whose content arrives slowly (3 ms - 1.3 s pauses), autocommit and transactional, inline and gRPC; snapshots held open across 1100-2600 overwrites of one key with passes in between",
          "For every base history the collector (and cleaner drain) is inserted at every position; no read of any actor changes, open readers read to the end.", "trusted: reference model; quiescence barrier", "3/C09"),
- "C11": ("exploration", "differential runtime monitoring through the real gRPC server and client vs the same reference model, exhaustive error-mapping round trips over a generated wrapping family, and inline-vs-gRPC comparison of server-side rejections (empty key, injected no-space) for contents from 0 bytes to 4 MiB; keys of 5000 and 70000 bytes; Begin without a level; thorough tier: handles held open for 50 s on both clients; a 25-call script per key through both clients over a grid of UTF-8 keys (rune widths 1-4, lengths 16-65536); gRPC handles whose Open context is done; failing metadata writes inside histories; ends retried after a dead-context attempt; readers with different views of one key on one handle at once; several handles to one server opened and closed independently",
+ "C11": ("exploration", "differential runtime monitoring through the real gRPC server and client vs the same reference model, exhaustive error-mapping round trips over a generated wrapping family, and inline-vs-gRPC comparison of server-side rejections (empty key, injected no-space) for contents from 0 bytes to 4 MiB; keys of 5000 and 70000 bytes; Begin without a level; thorough tier: handles held open for 50 s on both clients; a 25-call script per key through both clients over a grid of UTF-8 keys (rune widths 1-4, lengths 16-65536); gRPC handles whose Open context is done; failing metadata writes inside histories; ends retried after a dead-context attempt; readers with different views of one key on one handle at once; several handles to one server opened and closed independently; partly consumed sources; snapshot taken at Begin",
          "The gRPC client is compared with the model the inline client is compared with (same histories), and every wire sentinel survives Error->ClientError under all generated wrappings.", "trusted: reference model; loopback TCP", "3/C11"),
  "C13": ("exploration", "differential runtime monitoring: late operations through ended / never-begun transaction handles (inline and gRPC; never-begun ones also under names that are not UUID-shaped), probes by all actors and after reopen, vs reference model; plus a concurrent role (other goroutines read through a transaction while it ends; reads issued afterwards must fail); finished handles probed while 4-16 goroutines begin and end transactions; ends attempted with a cancelled context; large late uploads; identifiers of ended transactions used again after a restart and new Begins; connection cut (TCP forwarder) exactly while Rollback / Commit is sent",
          "Every late call class and every probe after it equals the model; late writes being accepted is a recorded known finding, every other deviation is reported.", "trusted: reference model", "3/C13"),
  "C18": ("exploration", "runtime comparison of the real per-key version list with a linear-scan specification: exhaustive over all subsets of 12 versions x all points x all horizons, plus seeded long interleavings; plus a database-level role: content files left on disk after a collector pass with a transaction open since the horizon must be exactly the versions without a successor at or before the horizon; snapshot look-ups around deletions (every Set/Delete pattern of length <= 3 before and after the point); keys with 1030-2400 versions around the horizon; older transactions ending and younger ones beginning before the pass; six collector passes at once",
          "Exhaustive for lists drawn from 12 sequence numbers (every subset, every snapshot point, every horizon), seeded for long lists.", "trusted: linear-scan specification", "3/C18"),
- "C19": ("exploration", "runtime comparison of the real record repository with an independent codec, golden vectors and a golden Badger directory; arbitrary-bytes decoding with panic capture (also short views of larger buffers); GetAll over up to 5000 records; 4-12 repositories encoding/decoding at once; a short record among valid ones at every position; hash-colliding keys; the repositories over the real Badger manager with rewritten and deleted records, inside and outside metadata-store transactions",
+ "C19": ("exploration", "runtime comparison of the real record repository with an independent codec, golden vectors and a golden Badger directory; arbitrary-bytes decoding with panic capture (also short views of larger buffers); GetAll over up to 5000 records; 4-12 repositories encoding/decoding at once; a short record among valid ones at every position; hash-colliding keys; the repositories over the real Badger manager with rewritten and deleted records, inside and outside metadata-store transactions, on top of up to 3100 records",
          "Encoded bytes equal the documented layout, decoding inverts it, golden data written earlier still decodes, arbitrary bytes never panic and short records are rejected.", "trusted: golden files under /verif/golden", "3/C19"),
  "C20": ("exploration", "runtime enumeration of configuration-source combinations (file x environment per setting, single + pairwise + seeded) against a model of the documented precedence; other spellings of numeric/duration environment values; Valid() table; defaults-after-open; zero values in the file; effective directory limit of an opened database; values from the edges of each type; configuration files of 3-300 KiB; values with characters that shells, templates and URL parsers interpret; child processes started with GOMAXPROCS=3/5",
          "Every combination run agrees with the precedence model; malformed values in effect are errors; Valid() table complete.", "trusted: model of documented defaults", "3/C20"),
